@@ -518,6 +518,7 @@ func genC07(r *rng, tier string, emit func(string)) {
 			emitRead(m)
 		}
 	}
+	c06rGenRead(r, tier, emit) // Conn.Read buffering (Model.ConnRead)
 }
 
 // craftCBCRecord builds a GMSSL SM4-CBC + HMAC-SM3 record by hand: header ‖ explicit IV ‖ CBC(payload ‖ MAC ‖ pad)
